@@ -323,6 +323,10 @@ _mtbl_compress_zlib(
 		.zfree	= Z_NULL,
 	};
 
+	/* zlib counts the bytes of a single deflate() call in 32 bits. */
+	if (input_size > INT_MAX)
+		return (mtbl_res_failure);
+
 	if (compression_level < Z_DEFAULT_COMPRESSION) {
 		compression_level = Z_NO_COMPRESSION;
 	} else if (compression_level > Z_BEST_COMPRESSION) {
